@@ -425,6 +425,14 @@ fn oneshot(case_path: &str, result_path: &str) {
     install_hook();
     let entry = case["entry"].as_str().unwrap_or("lib").to_string();
     let r = catch_unwind(AssertUnwindSafe(|| -> Result<Vec<String>, String> {
+        if entry == "analyze" {
+            // the analysis entry point with its verbose switch (what the CLI calls before generating)
+            let mut a = CommandAnalyzer::new();
+            return a
+                .analyze_project_with_verbose(case["src_dir"].as_str().unwrap(), case["verbose"].as_bool().unwrap_or(false))
+                .map(|c| c.iter().map(|x| x.name.clone()).collect())
+                .map_err(|e| e.to_string());
+        }
         if entry == "build" {
             std::env::set_current_dir(case["dir"].as_str().unwrap()).map_err(|e| e.to_string())?;
             tauri_typegen::BuildSystem::generate_at_build_time().map(|_| vec![]).map_err(|e| e.to_string())
